@@ -18,7 +18,7 @@ REQUIRED_COUNTERS = ['executed']      # the real calls were made (whether the so
 
 # observed contracts (not proof targets): cross-checked under the properties that depend on the reordering primitives
 EXTRA = {'C07': ['dd.bdd.BDD.swap!observed', 'dd.bdd.reorder!observed'], 'C02': ['dd.bdd.BDD.swap!observed', 'dd.bdd.BDD.undeclare_vars!observed'],
-         'C14': ['dd.bdd.BDD.undeclare_vars!observed'], 'C10': ['dd.bdd.BDD.pick_iter!observed', 'dd.bdd.BDD.pick!observed'], 'C01': ['dd.bdd.BDD.cube!observed'], 'C18': ['dd.bdd.BDD.undeclare_vars!observed'],
+         'C14': ['dd.bdd.BDD.undeclare_vars!observed'], 'C10': ['dd.bdd.BDD.pick_iter!observed', 'dd.bdd.BDD.pick!observed'], 'C13': ['dd.bdd.image!observed', 'dd.bdd.preimage!observed'], 'C01': ['dd.bdd.BDD.cube!observed'], 'C18': ['dd.bdd.BDD.undeclare_vars!observed'],
          'C06': ['dd.bdd.BDD.swap!observed'], 'C09': ['dd.bdd.reorder!observed'], 'C17': ['dd.bdd.BDD.swap!observed']}
 
 
@@ -47,7 +47,7 @@ def chunks(tier, seed):
     n = 9 if tier == 'quick' else 12 * DEEP
     out = []
     for key in _selected():
-        heavy = '_image' in key       # the relational product needs an interpretation of IMG/FIMG: ~20 s per input
+        heavy = 'image' in key       # the relational product needs an interpretation of IMG/FIMG: ~20 s per input
         n = (3 if heavy else 9) if tier == 'quick' else (1 if heavy else 4) * DEEP
         step = 1 if tier == 'quick' else 4
         for k in range(0, n, step):
